@@ -16,6 +16,8 @@ def runBlock (hdr : String) (lines : Array String) : String :=
   match (hdr.splitOn " ").filter (· ≠ "") with
   | "S" :: "timeout" :: _ => (validate timeoutModel lines).render
   | "S" :: "oracle" :: _ => runOracle lines
+  | "S" :: "replay" :: "cos" :: _ => Replay.CoS.run lines
+  | "S" :: "replay" :: "shutdown" :: _ => Replay.Shutdown.run ((hdr.splitOn " ").filter (· ≠ "")) lines
   | "S" :: "replay" :: "poll" :: _ => Replay.Poll.run ((hdr.splitOn " ").filter (· ≠ "")) lines
   | "S" :: "replay" :: "retry" :: _ => Replay.Retry.run lines
   | "S" :: "replay" :: "throttle" :: _ => Replay.Throttle.run ((hdr.splitOn " ").filter (· ≠ "")) lines
